@@ -44,7 +44,9 @@ def alphabet(tier: str, variant: str = "full") -> Tuple[List[List[tuple]], List[
           [PTR(TA, X, 0), PTR(TA, X, 4500)], [PTR(TA, X, 4500), PTR(TA, X, 0)],
           # a CNAME record whose owner is the browsed type (the decoder represents it with the class it uses for pointers, but
           # it is no pointer record: nothing is Added or Removed for it)
-          [("CNAME", TA, IN, 4500, X)], [("CNAME", TA, IN, 0, X)]]
+          [("CNAME", TA, IN, 4500, X)], [("CNAME", TA, IN, 0, X)],
+          # the pointer of an instance in a class other than IN (class 3, CHAOS): still one (type, instance) for the callbacks
+          [PTR(TA, X, 4500, 3)], [PTR(TA, X, 0, 3)]]
     if tier != "quick":
         d += [[PTR(TA, Y, 1125)], [PTR(TA, Y, 4500, FL)], [PTR(TA, X, 2)], [PTR(TA, X, 0), PTR(TB, Z, 4500)],
               [PTR(TA, Y, 0), PTR(TA, X, 0)], [("SRV", X, FL, 0, 0, 0, 80, "h.local.")], [("A", "h.local.", FL, 0, IP)],
@@ -60,7 +62,8 @@ def alphabet(tier: str, variant: str = "full") -> Tuple[List[List[tuple]], List[
                                   [PTR(TA, XU, 4500)], [PTR(TA, X, 4500, FL)], [PTR(TA, X, 0), PTR(TA, Y, 4500)],
                                   [PTR(TA, X, 1), PTR(TA, X, 4500)], d[15], [PTR(TB, Z, 4500)],
                                   [("TXT", X, FL, 4500, b"\x01c"), PTR(TA, X, 0)], [PTR(TA, X, 0), PTR(TA, X, 4500)],
-                                  [PTR(TA, X, 4500), PTR(TA, X, 0)], [("CNAME", TA, IN, 4500, X)], [("CNAME", TA, IN, 0, X)])}
+                                  [PTR(TA, X, 4500), PTR(TA, X, 0)], [("CNAME", TA, IN, 4500, X)], [("CNAME", TA, IN, 0, X)],
+                                  [PTR(TA, X, 4500, 3)])}
         d = [x for x in d if repr(x) in keep]
         steps = [1, 1000, 1001, 10000, 1125001, 4500000]
     ops = [("start", "a"), ("cancel", "a"), ("start", "ab")]
